@@ -373,12 +373,13 @@ impl ObjectStream {
         if index >= self.offsets.len() {
             err!(PdfError::ObjStmOutOfBounds {index, max: self.offsets.len()});
         }
-        let start = self.inner.info.first + self.offsets[index];
+        // /First and the offsets come from the file: their sum may not fit
+        let start = t!(self.inner.info.first.checked_add(self.offsets[index]).ok_or(PdfError::Invalid));
         let data = self.inner.data(resolve)?;
         let end = if index == self.offsets.len() - 1 {
             data.len()
         } else {
-            self.inner.info.first + self.offsets[index + 1]
+            t!(self.inner.info.first.checked_add(self.offsets[index + 1]).ok_or(PdfError::Invalid))
         };
 
         Ok((data, start..end))
